@@ -132,8 +132,11 @@ impl<S: Storage> Builder<S> {
         // recursively build for all views
         let mut views = HashMap::new();
         for node in plan.as_ref() {
+            // (a table dropped by another session since this statement was bound is simply not a
+            // view: scanning it reports "table not found" instead of panicking here)
             if let Expr::Table(tid) = node
-                && let Some(query) = optimizer.catalog().get_table(tid).unwrap().query()
+                && let Some(table) = optimizer.catalog().get_table(tid)
+                && let Some(query) = table.query()
             {
                 let builder = Self::new(optimizer.clone(), storage.clone(), query);
                 let subscriber = builder.build_subscriber();
